@@ -859,6 +859,11 @@ def check_c05(prog, rep, tier, cfg):
     c05m(prog, rep)
     c05n(prog, rep)
     c05o(prog, rep)
+    # C05.p — a line that is wrapped again after its strings were rewritten is wrapped from the line the first pass wrapped it from, at
+    # any nesting depth: from an intermediate child line it would be laid out as a top-level line, one or more levels too far left
+    # (shared with C03.i / C10.d)
+    import layout as _layout5
+    _layout5.reflow_root_is_first_pass_root(prog, rep, "C05.p")
     # C05.k — "indented exactly one level deeper": what is written for a line start is `indentations` copies of the indentation string and
     # `continuations` copies of the continuation string, whatever the depth (shared with C08.a counter <-> string pairing and C10.c: the
     # width strings reach the output only through push / repeat, not through a cache that can be too short)
